@@ -285,11 +285,71 @@ pub fn encode_well_formed(enc: &'static Encoding, text: &[char]) -> Vec<u8> {
     }
 }
 
+/// Family-specific fragments: escape sequences and their prefixes, multi-byte
+/// prefixes, shift bytes, surrogate halves.
+fn fragments(f: Family) -> &'static [&'static [u8]] {
+    match f {
+        Family::Iso2022Jp => &[
+            &[0x1B, 0x28, 0x42], &[0x1B, 0x28, 0x4A], &[0x1B, 0x24, 0x42], &[0x1B, 0x24, 0x40], &[0x1B, 0x28, 0x49], &[0x1B], &[0x1B, 0x24], &[0x1B, 0x28],
+            &[0x1B, 0x24, 0x41], &[0x1B, 0x1B], &[0x24, 0x22], &[0x30, 0x21], &[0x24], &[0x7E, 0x7E], &[0x21, 0x21], &[0x0E], &[0x0F], &[0x5C], &[0x7E], &[0x31], &[0x5F],
+        ],
+        Family::Gbk | Family::Gb18030 => &[
+            &[0x81, 0x30], &[0x81, 0x30, 0x81], &[0x81, 0x30, 0x81, 0x30], &[0x84, 0x31, 0xA4, 0x39], &[0x84, 0x31, 0xA4], &[0x90, 0x30, 0x81, 0x30], &[0xE3, 0x32, 0x9A, 0x35],
+            &[0xE3, 0x32, 0x9A, 0x36], &[0x81, 0x35, 0xF4, 0x37], &[0xFE, 0x39, 0xFE, 0x39], &[0x81], &[0x81, 0x40], &[0x81, 0x7F], &[0xA8, 0xBF], &[0x80], &[0xFF], &[0x81, 0x30, 0x41],
+            &[0x81, 0x30, 0x81, 0x41], &[0xA6, 0xD9], &[0xFE, 0x59],
+        ],
+        Family::EucJp => &[&[0x8E], &[0x8F], &[0x8E, 0xA1], &[0x8E, 0xE0], &[0x8F, 0xA1], &[0x8F, 0xA2, 0xAF], &[0x8F, 0xA1, 0x41], &[0x8F, 0x41], &[0xA4, 0xA2], &[0xA4], &[0xA1, 0x41], &[0xFE, 0xFE], &[0xA0]],
+        Family::ShiftJis => &[&[0x81], &[0x81, 0x40], &[0x82, 0xA0], &[0xE0], &[0xFC, 0xFC], &[0xF0, 0x40], &[0xA1], &[0xDF], &[0x81, 0x3F], &[0x81, 0x7F], &[0x80], &[0xA0], &[0xFD]],
+        Family::Big5 => &[&[0x87, 0x40], &[0x88, 0x62], &[0x88, 0x64], &[0x88, 0xA3], &[0x88, 0xA5], &[0xA4, 0x40], &[0xA4], &[0x81, 0x40], &[0xFE, 0xFE], &[0xA4, 0x7F], &[0xA4, 0x30], &[0xC8, 0x7C], &[0x80], &[0xFF]],
+        Family::EucKr => &[&[0x81, 0x41], &[0xB0, 0xA1], &[0xB0], &[0xC6, 0x52], &[0xC6, 0x53], &[0xFE, 0xFE], &[0x81, 0x5B], &[0x81, 0x30], &[0x80], &[0xFF], &[0xC7, 0x41]],
+        Family::Utf8 => &[
+            &[0xC3], &[0xC3, 0xA9], &[0xE2], &[0xE2, 0x82], &[0xE2, 0x82, 0xAC], &[0xF0], &[0xF0, 0x9F], &[0xF0, 0x9F, 0x92], &[0xF0, 0x9F, 0x92, 0xA9], &[0xE0, 0x80], &[0xE0, 0xA0], &[0xED, 0xA0],
+            &[0xED, 0x9F], &[0xF0, 0x80], &[0xF0, 0x90], &[0xF4, 0x90], &[0xF4, 0x8F], &[0xC0, 0x80], &[0xC1], &[0xF5], &[0x80], &[0xBF], &[0xEF, 0xBB, 0xBF], &[0xEF, 0xBF, 0xBD], &[0xE1, 0x80],
+        ],
+        Family::Utf16Be => &[&[0xD8, 0x3D], &[0xDC, 0xA9], &[0xD8, 0x3D, 0xDC, 0xA9], &[0xD8], &[0x00], &[0x00, 0x61], &[0x00, 0x00], &[0xDB, 0xFF], &[0xDF, 0xFF], &[0xFF, 0xFE], &[0xFE, 0xFF], &[0x4E, 0x00], &[0xD8, 0x3D, 0xD8, 0x3D]],
+        Family::Utf16Le => &[&[0x3D, 0xD8], &[0xA9, 0xDC], &[0x3D, 0xD8, 0xA9, 0xDC], &[0x3D], &[0x00], &[0x61, 0x00], &[0x00, 0x00], &[0xFF, 0xDB], &[0xFF, 0xDF], &[0xFF, 0xFE], &[0xFE, 0xFF], &[0x00, 0x4E], &[0x3D, 0xD8, 0x3D, 0xD8]],
+        _ => &[&[0x80], &[0xFF], &[0xA0], &[0xEF], &[0xBB], &[0xFE], &[0x81], &[0x8D]],
+    }
+}
+
+/// Token grammar: a stream is a short concatenation of well-formed encoded
+/// characters, *prefixes* of such (truncated sequences), family-specific
+/// fragments (escapes and their prefixes, shift bytes, range edges), edge
+/// bytes and ASCII - so that an unfinished sequence is followed by every kind
+/// of thing that can follow it.
+fn gen_token_stream(rng: &mut Rng, enc: &'static Encoding, fam: Family, long: bool) -> Vec<u8> {
+    let n = if long { rng.range(20, 200) } else if tiny() { rng.range(1, 4) } else { rng.range(1, 7) };
+    let mut out = Vec::new();
+    for _ in 0..n {
+        match rng.below(12) {
+            0..=2 => {
+                let k = rng.range(1, 2);
+                let t: Vec<char> = (0..k).map(|_| scalar_from(rng.pick(CLASS_ALPHABET))).collect();
+                out.extend_from_slice(&encode_well_formed(enc, &t));
+            }
+            3..=4 => {
+                let t = [scalar_from(rng.pick(CLASS_ALPHABET))];
+                let e = encode_well_formed(enc, &t);
+                if e.len() > 1 {
+                    let k = rng.range(1, e.len() - 1);
+                    out.extend_from_slice(&e[..k]);
+                } else {
+                    out.extend_from_slice(&e);
+                }
+            }
+            5..=8 => out.extend_from_slice(rng.pick(fragments(fam))),
+            9 => out.push(rng.pick(edge_alphabet(fam))),
+            _ => out.push(rng.pick(&[b'a', b'A', b'0', b'9', b' ', 0x7F, 0x00, b'\\', b'~'])),
+        }
+    }
+    out
+}
+
 pub fn gen_dec_stream(rng: &mut Rng, enc: &'static Encoding, long: bool, bom_bias: bool) -> DecStream {
     let fam = family(enc);
     let mut st = DecStream::default();
     let long = long && !tiny();
-    let strat = if long { rng.weighted(&[2, 1, 0, 4]) } else { rng.weighted(&[4, 4, 1, 0]) };
+    let strat = if long { rng.weighted(&[2, 1, 0, 4, 2]) } else { rng.weighted(&[4, 3, 1, 0, 5]) };
     let mut bytes: Vec<u8> = match strat {
         0 => {
             // (a) well-formed text through the crate's own encoder
@@ -310,6 +370,10 @@ pub fn gen_dec_stream(rng: &mut Rng, enc: &'static Encoding, long: bool, bom_bia
                     _ => rng.below(256) as u8,
                 })
                 .collect()
+        }
+        4 => {
+            st.strategy = "token-grammar";
+            gen_token_stream(rng, enc, fam, long)
         }
         2 => {
             // all-ASCII (the only kind of stream for which most decoders
